@@ -52,7 +52,7 @@ def gen_cases(ctx):
         for p in [1, 2, 3, 5] + ([14] if ctx.thorough else []):
             for j in range(2 if not ctx.thorough else 6):
                 pr = (p, r.choice([1, 2, 3]) if ind == "SLOW" else 0, 0, 2.0 if ind == "KC" else 0.0)
-                xs = scalar_stream(r, 3 * p + 8, r.choice(["walk", "ties", "uniform", "grid"]))
+                xs = scalar_stream(r, 3 * p + 8, ["ulps", "walk", "ties", "uniform", "grid"][(j + p) % 5] if not ctx.thorough else r.choice(["walk", "ties", "uniform", "grid", "ulps"]), positive=False)
                 ops = [new_op(0, ind, pr), new_op(1, ind, pr)]
                 for x in xs:
                     ops += [("b", 0, x, x, x, x, r.uniform(0, 10)), ("n", 1, x)]
